@@ -255,6 +255,59 @@ func (w *world) cellCalls(chain []winSpec) {
 			}
 		}
 	}
+	// --- SetStyle over a background of wide glyphs (drawn through the root window in an earlier frame), in the
+	// two alignments: a window edge may cut a glyph in half, and styling the half inside must not reach the half outside
+	if len(chain) <= 2 {
+		for align := 0; align < 2; align++ {
+			w.resetScreen()
+			root := w.s.Vx.Window()
+			lead := map[[2]int]bool{}
+			for y := 0; y < scrH; y++ {
+				for x := align; x+1 < scrW; x += 2 {
+					root.SetCell(x, y, vaxis.Cell{Character: vaxis.Character{Grapheme: "世", Width: 2}})
+					lead[[2]int{x, y}] = true
+				}
+			}
+			w.s.Vx.Render()
+			win, ox, oy, clip, _ = w.build(chain)
+			idx = 0
+			for rr := rMin; rr <= rMax; rr++ {
+				for cc := cMin; cc <= cMax; cc++ {
+					win.SetStyle(cc, rr, vaxis.Style{Foreground: vaxis.IndexColor(uint8(16 + idx))})
+					idx++
+				}
+			}
+			w.s.Vx.Render()
+			r.Count("renders", 2)
+			g = w.grid()
+			w.dirty = true
+			for y := 0; y < scrH; y++ {
+				for x := 0; x < scrW; x++ {
+					if x > 0 && lead[[2]int{x - 1, y}] {
+						continue // the second half of a glyph: shown with the first half's style
+					}
+					c := g[y][x]
+					if c.Style.Fg.Kind == 0 {
+						continue
+					}
+					i := int(c.Style.Fg.V) - 16
+					if i < 0 || i >= len(reqs) {
+						bad("SetStyle", "wide-background|garbage", fmt.Sprintf("screen cell (%d,%d) has foreground %v", x, y, c.Style.Fg))
+						return
+					}
+					q := reqs[i]
+					if !clip.has(x, y) {
+						bad("SetStyle", "wide-background|escaped", fmt.Sprintf("SetStyle(%d,%d) changed screen cell (%d,%d) (a wide glyph starts there), outside the clip rectangle %v", q.c, q.r, x, y, clip))
+						return
+					}
+					if x != ox+q.c || y != oy+q.r {
+						bad("SetStyle", "wide-background|misplaced", fmt.Sprintf("SetStyle(%d,%d) landed at (%d,%d), origin (%d,%d)", q.c, q.r, x, y, ox, oy))
+						return
+					}
+				}
+			}
+		}
+	}
 	// --- SetCell with a wide cell (explicit and auto-measured width) at every coordinate, one at a time
 	wides := []vaxis.Cell{{Character: vaxis.Character{Grapheme: "世", Width: 2}}, {Character: vaxis.Character{Grapheme: "世", Width: 0}}}
 	if !r.Thorough() && len(chain) > 1 {
@@ -653,9 +706,9 @@ func main() {
 	n := r.Get("renders")
 	r.Finish(explore.Coverage{
 		States: -1, Transitions: n, Traces: n, Evaluations: n,
-		Rule: "window chains on a 4x3 screen: depth 1 with offsets {-2,-1,0,1,3,5}^2 x sizes {-1,0,1,2,4,9}^2, depth 2 with {-1,0,1,3}^2 x {-1,1,2,9}^2 per level, depth 3 with {-1,0,1}^2 x {-1,2,9}^2 per level, each level built by New or as a struct literal; per chain: SetCell and SetStyle at every coordinate of [-2,6]x[-2,5] (each with its own marker), Fill, Clear; text helpers Print/Wrap/PrintTruncate/Println (rows -1..4) with every string of <= n symbols over {a,世,e+U+0301,SP,TAB,LF} on depth-1 and depth-2 chains; all observed through the reference terminal after Render against a marker-filled screen; distinct = (chain, call family) cases that passed",
+		Rule:       "window chains on a 4x3 screen: depth 1 with offsets {-2,-1,0,1,3,5}^2 x sizes {-1,0,1,2,4,9}^2, depth 2 with {-1,0,1,3}^2 x {-1,1,2,9}^2 per level, depth 3 with {-1,0,1}^2 x {-1,2,9}^2 per level, each level built by New or as a struct literal; per chain: SetCell and SetStyle at every coordinate of [-2,6]x[-2,5] (each with its own marker), SetStyle also over a background of wide glyphs in both alignments (depth <= 2), Fill, Clear; text helpers Print/Wrap/PrintTruncate/Println (rows -1..4) with every string of <= n symbols over {a,世,e+U+0301,SP,TAB,LF} on depth-1 and depth-2 chains; all observed through the reference terminal after Render against a marker-filled screen; distinct = (chain, call family) cases that passed",
 		Exhaustive: true,
-		Bounds: map[string]any{"screen": "4x3", "max_string_len": r.Pick(3, 4)},
+		Bounds:     map[string]any{"screen": "4x3", "max_string_len": r.Pick(3, 4)},
 		Assumptions: []string{"the clip rectangle is the intersection of the rectangles given by each window's own Column/Row/Width/Height fields (after New's clamping) and the screen",
 			"order/advance/new-row clauses are judged only when the whole window is visible (otherwise only containment)"},
 	})
